@@ -48,6 +48,8 @@ func main() {
 		runChainProfile(profileSpec{name: "burn", gen: genBurnHistory, monitors: func() []Monitor { return []Monitor{&burnMonitor{}, &feeMonitor{}} }}, *seed, *n, *out, *replay, *blocks)
 	case "pnft":
 		runChainProfile(profileSpec{name: "pnft", gen: genPnftHistory, monitors: func() []Monitor { return []Monitor{newPnftMonitor(), &feeMonitor{}} }}, *seed, *n, *out, *replay, *blocks)
+	case "upgrade":
+		runChainProfile(profileSpec{name: "upgrade", gen: genUpgradeHistory, monitors: func() []Monitor { return nil }, node: true}, *seed, *n, *out, *replay, *blocks)
 	case "conc":
 		runConc(*seed, *n, *out)
 	case "node":
